@@ -3,6 +3,7 @@ package rules
 import (
 	"fmt"
 	"go/token"
+	"go/types"
 	"strings"
 
 	"golang.org/x/tools/go/ssa"
@@ -274,11 +275,18 @@ func ruleDeclaredOrder(c *eng.Ctx) {
 		})
 		c.Check(okMan, R, "epubdoc.(*Reader).loadChapters#manifest", fn.Pos(), "manifest item found by the spine item's idref", "the manifest is not looked up with the spine item's idref")
 		okHref := false
-		for _, ci := range eng.CallsNamed(fn, false, "epubdoc.(*Reader).resolveHref") {
-			for v := range eng.Slice(ci.Common().Args[1], nil) {
-				if f, ok := eng.AsField(v); ok && f.Field == "Href" {
-					okHref = true
+		if res := epubHrefResolver(p); res != nil {
+			for _, ci := range eng.Calls(fn, false, func(_ string, ci ssa.CallInstruction) bool { return ci.Common().StaticCallee() == res }) {
+				for _, a := range ci.Common().Args {
+					for v := range eng.Slice(a, nil) {
+						if f, ok := eng.AsField(v); ok && f.Field == "Href" {
+							okHref = true
+						}
+					}
 				}
+			}
+			if res == fn {
+				okHref = true // resolved in place; R18.2 reads the decoding here
 			}
 		}
 		c.Check(okHref, R, "epubdoc.(*Reader).loadChapters#href", fn.Pos(), "content file located through resolveHref(item.Href)", "the chapter file is not located through resolveHref(item.Href)")
@@ -289,20 +297,67 @@ func ruleDeclaredOrder(c *eng.Ctx) {
 	}
 }
 
+// epubHrefResolver finds the function that turns a manifest href into an archive path: the anchored method when it
+// exists under its name, otherwise the package function loadChapters hands the item's Href to and gets a string back
+// from (the role, whatever it is called and whether or not it is a method), otherwise the host it was inlined into.
+func epubHrefResolver(p *eng.Prog) *ssa.Function {
+	if f := p.FuncExact("epubdoc.(*Reader).resolveHref"); f != nil {
+		return f
+	}
+	if lc := p.Func("epubdoc.(*Reader).loadChapters"); lc != nil {
+		var found []*ssa.Function
+		for _, ci := range eng.Calls(lc, false, func(string, ssa.CallInstruction) bool { return true }) {
+			cal := ci.Common().StaticCallee()
+			if cal == nil || cal.Pkg != lc.Pkg || cal.Blocks == nil {
+				continue
+			}
+			res := cal.Signature.Results()
+			if res.Len() != 1 {
+				continue
+			}
+			if b, ok := res.At(0).Type().Underlying().(*types.Basic); !ok || b.Kind() != types.String {
+				continue
+			}
+			fromHref := false
+			for _, a := range ci.Common().Args {
+				for v := range eng.Slice(a, nil) {
+					if f, ok := eng.AsField(v); ok && f.Field == "Href" {
+						fromHref = true
+					}
+				}
+			}
+			if fromHref {
+				found = append(found, cal)
+			}
+		}
+		if len(found) == 1 {
+			return found[0]
+		}
+	}
+	return p.Func("epubdoc.(*Reader).resolveHref")
+}
+
 func ruleHrefDecode(c *eng.Ctx) {
 	const R = "R18.2-HREF-DECODE"
 	c.Rule(R, "resolveHref percent-decodes with url.PathUnescape (QueryUnescape would turn '+' into a space) and joins the result to the OPF directory", 2, 0)
-	fn := c.P.Func("epubdoc.(*Reader).resolveHref")
+	fn := epubHrefResolver(c.P)
 	if fn == nil {
 		c.Undec(R, "epubdoc.(*Reader).resolveHref", token.NoPos, "anchor not found")
 		return
+	}
+	// the base directory may arrive as a parameter: follow it to the call sites
+	cl := []*ssa.Function{fn}
+	for _, h := range []string{"epubdoc.(*Reader).loadChapters", "epubdoc.(*Reader).parseNavigation"} {
+		if g := c.P.Func(h); g != nil && g != fn {
+			cl = append(cl, g)
+		}
 	}
 	q := len(eng.CallsNamed(fn, false, "net/url.QueryUnescape")) > 0
 	pth := len(eng.CallsNamed(fn, false, "net/url.PathUnescape")) > 0
 	c.Check(pth && !q, R, "epubdoc.(*Reader).resolveHref", fn.Pos(), "url.PathUnescape", "hrefs are not decoded with url.PathUnescape: a '+' in a file name becomes a space and the chapter is silently dropped")
 	join := false
 	for _, ci := range eng.CallsNamed(fn, false, "path.Join") {
-		for v := range eng.Slice(ci.Common().Args[0], nil) {
+		for v := range eng.SliceInter(ci.Common().Args[0], nil, cl) {
 			if f, ok := eng.AsField(v); ok && f.Field == "baseDir" {
 				join = true
 			}
